@@ -3,6 +3,7 @@ package ref
 import (
 	"fmt"
 	"math"
+	"math/bits"
 	"math/cmplx"
 )
 
@@ -215,4 +216,33 @@ func lastPow2_alt2(N int) (n, p int, err error) {
 		p++
 	}
 	return n, p, nil
+}
+
+// permutationIndex_alt1: the doubling written over the block size itself: n runs through 1, 2, 4, ... below
+// N = 2^P, which are exactly the P values n = 2^p, p = 0..P-1 of the primary formulation.
+func permutationIndex_alt1(P int) []int {
+	N := 1 << uint(P)
+	idx := make([]int, N)
+	idx[0] = 0
+	for n := 1; n < N; n <<= 1 {
+		for i := 0; i < n; i++ {
+			v := 2 * idx[i]
+			idx[i] = v
+			idx[i+n] = v + 1
+		}
+	}
+	return idx
+}
+
+// lastPow2_alt3: the largest power of two not exceeding N in closed form: for N >= 2, bits.Len(uint(N)) - 1 is
+// floor(log2 N), the exponent p with 2^p <= N < 2^(p+1) that the doubling search stops at.
+func lastPow2_alt3(N int) (n, p int, err error) {
+	if N < 2 {
+		return 0, 0, fmt.Errorf("fft input length must be >= 2")
+	}
+	if N > 1<<27 {
+		return 0, 0, fmt.Errorf("fft input length must be < %d. It is: %d", 1<<27, N)
+	}
+	p = bits.Len(uint(N)) - 1
+	return 1 << uint(p), p, nil
 }
